@@ -128,10 +128,15 @@ pub struct RefWorld {
   nodes: Vec<RNode>,
   /// events delivered to recorders since the last drain: (recorder id, event)
   pub out: Vec<(u32, Ev)>,
+  all: Vec<(u32, Ev)>,
   pub tap_log: Vec<Ev>,
   /// a polite endless producer hit its cap although nobody listens: never happens in the reference
   pub roots: Vec<usize>,
   pub hit_subscription_cap: bool,
+  /// nested subscriptions: (outer recorder, trigger, inner recorder, fired)
+  pub nests: Vec<(u32, crate::s_run::Trig, u32, bool)>,
+  pub nest_pipeline: Option<Node>,
+  pub root_of_rec: Vec<(u32, usize)>,
 }
 
 impl RefWorld {
@@ -140,9 +145,13 @@ impl RefWorld {
       srcs: kinds.into_iter().map(|k| RSrc { kind: k, insts: vec![] }).collect(),
       nodes: vec![],
       out: vec![],
+      all: vec![],
       tap_log: vec![],
       roots: vec![],
       hit_subscription_cap: false,
+      nests: vec![],
+      nest_pipeline: None,
+      root_of_rec: vec![],
     }
   }
 
@@ -175,6 +184,7 @@ impl RefWorld {
   pub fn subscribe_root(&mut self, p: &Node, rec: u32) -> usize {
     let root = self.new_node(Kind::Root(rec), None, 1);
     self.roots.push(root);
+    self.root_of_rec.push((rec, root));
     self.attach(root, 0, p);
     root
   }
@@ -407,7 +417,23 @@ impl RefWorld {
   }
 
   fn record(&mut self, rec: u32, ev: Ev) {
-    self.out.push((rec, ev));
+    self.out.push((rec, ev.clone()));
+    self.all.push((rec, ev.clone()));
+    if rec % 100 == 0 && !self.nests.is_empty() {
+      let items = self.all.iter().filter(|e| e.0 == rec && !e.1.is_terminal()).count();
+      let mut fire = vec![];
+      for n in self.nests.iter_mut() {
+        if n.0 == rec && !n.3 && n.1.matches(&ev, items) {
+          n.3 = true;
+          fire.push(n.2);
+        }
+      }
+      if let Some(p) = self.nest_pipeline.clone() {
+        for r2 in fire {
+          self.subscribe_root(&p, r2);
+        }
+      }
+    }
   }
 
   fn deliver(&mut self, id: usize, slot: usize, ev: Ev) {
